@@ -153,6 +153,13 @@ def c19(ctx):
         if g["status"] != "ok" or not g["cases"]:
             raise Broken("MeshGen produced no behaviours: %s\n%s" % (g["status"], g["out"][-2000:]))
         allcases += g["cases"]
+    # a party that starts long after it joined (no deadline of any length may cost it its place); these runs only wait,
+    # so they go on in the background while the rest of the check runs
+    from concurrent.futures import ThreadPoolExecutor
+    late_ms = [12500, 35000, 65000] if thorough else [12500]
+    late_files = [os.path.join(ctx.tmp, "c19late-%d.ndjson" % ms) for ms in late_ms]
+    late_pool = ThreadPoolExecutor(max_workers=len(late_ms))
+    late_jobs = [late_pool.submit(ctx.run_vh, ["c19", "late", f, ms], timeout=600) for f, ms in zip(late_files, late_ms)]
     cases = os.path.join(ctx.tmp, "c19cases.ndjson")
     write_ndjson(cases, allcases)
     res = os.path.join(ctx.tmp, "c19res.ndjson")
@@ -195,6 +202,10 @@ def c19(ctx):
     sres = os.path.join(ctx.tmp, "c19slow.ndjson")
     ctx.run_vh(["c19", "slow", sres, 3000 if thorough else 1500], timeout=3000)
     ctx.absorb(sres)
+    for j, f in zip(late_jobs, late_files):
+        j.result()
+        ctx.absorb(f)
+    late_pool.shutdown()
     # binding self-test
     if first_trace and not ctx.violations:
         trace, n, c = first_trace
